@@ -1,6 +1,7 @@
 """C01 Decoding any datagram is safe, terminating and bounded."""
 import json
 import os
+import re
 import time
 
 from . import core
@@ -15,38 +16,69 @@ ASSUME = [
 
 
 def _mc(tier):
+    """Model checking of the decoder's algorithm; MCDecodeRR and MCDecodePtr also print the datagrams they
+    enumerate (one worker: the prints of several workers would interleave), which are replayed on the real decoder."""
     suf = "T" if tier == "thorough" else ""
     w = 16 if tier == "thorough" else 6
     r1 = core.tlc_mc("MCDecode", "MCDecode%s.cfg" % suf, "c01-name", workers=w)
-    r2 = core.tlc_mc("MCDecodeRR", "MCDecodeRR%s.cfg" % suf, "c01-rr", workers=w)
-    return [r1, r2]
+    r2 = core.tlc_mc("MCDecodeRR", "MCDecodeRR%s.cfg" % suf, "c01-rr", workers=1)
+    r3 = core.tlc_mc("MCDecodePtr", "MCDecodePtr%s.cfg" % suf, "c01-ptr", workers=1)
+    path = os.path.join(core.workdir("c01"), "tlc_cases.ndjson")
+    n = 0
+    with open(path, "w") as f:
+        for r in (r2, r3):
+            for l in r["prints"]:
+                m = re.match(r'<<"CASE", "(.*)">>', l.strip())
+                if m:
+                    f.write(core._unescape_tla(m.group(1)) + "\n")
+                    n += 1
+            r["prints"] = []
+    return [r1, r2, r3], path, n
 
 
-def _validate(trace, v, tag):
-    lines = None
-    r = core.tlc_trace("TraceDecode", "TraceDecode.cfg", trace, tag)
-    if r["viol"] or r.get("drift"):
-        lines = core.read_ndjson(trace)
-    for (t, ln, cid) in r["viol"]:
-        e = lines[ln - 1]
-        disc = {"kind": e["kind"], "out": e["out"]}
-        v.violation(t, disc, {"driver": "decode", "bytes_hex": bytes(e["b"]).hex(), "out": e["out"], "ms": e["ms"]})
-    for (t, ln, cid) in r.get("drift", [])[:5]:
-        e = lines[ln - 1]
-        v.note("drift: decoder outcome %s differs from DecodeMech!MechParse on %s (model no longer transcribes the code)"
-               % (e["out"], bytes(e["b"]).hex()[:120]))
-    return r
+def _validate(trace, v, tag, parts=6):
+    """Every line of the trace is judged on its own: the file is cut into `parts` pieces validated in parallel."""
+    from concurrent.futures import ThreadPoolExecutor
+    all_lines = [l for l in open(trace) if l.strip()]
+    parts = max(1, min(parts, len(all_lines) // 2000 + 1))
+    per = (len(all_lines) + parts - 1) // parts
+    files = []
+    for k in range(parts):
+        chunk = all_lines[k * per:(k + 1) * per]
+        if not chunk:
+            break
+        p = "%s.part%d" % (trace, k)
+        with open(p, "w") as f:
+            f.writelines(chunk)
+        files.append(p)
+    with ThreadPoolExecutor(max_workers=len(files)) as ex:
+        rs = list(ex.map(lambda kp: core.tlc_trace("TraceDecode", "TraceDecode.cfg", kp[1], "%s-%d" % (tag, kp[0])), enumerate(files)))
+    total = {"viol": [], "drift": [], "consumed": 0, "cmd": rs[0]["cmd"]}
+    for p, r in zip(files, rs):
+        total["consumed"] += r["consumed"]
+        lines = core.read_ndjson(p) if (r["viol"] or r.get("drift")) else None
+        for (t, ln, cid) in r["viol"]:
+            e = lines[ln - 1]
+            disc = {"kind": e["kind"], "out": e["out"]}
+            v.violation(t, disc, {"driver": "decode", "bytes_hex": bytes(e["b"]).hex(), "out": e["out"], "ms": e["ms"]})
+            total["viol"].append((t, ln, cid))
+        for (t, ln, cid) in r.get("drift", [])[:5]:
+            e = lines[ln - 1]
+            v.note("drift: decoder outcome %s differs from DecodeMech!MechParse on %s (model no longer transcribes the code)"
+                   % (e["out"], bytes(e["b"]).hex()[:120]))
+            total["drift"].append((t, ln, cid))
+    return total
 
 
 def run(tier, seed, t0):
     v = core.Verdict(PROP)
-    mcs = _mc(tier)
+    mcs, tlc_cases, n_tlc = _mc(tier)
     for r in mcs:
         if not r["ok"]:
             # the model of the decoder's algorithm itself violates C01
             v.violation("C01.model", {"module": r["module"]}, {"tlc_error": r.get("error", "")[:2000], "cmd": r["cmd"]})
     trace = os.path.join(core.workdir("c01"), "decode.ndjson")
-    summ = core.harness(["decode", "--out", trace, "--seed", seed, "--tier", tier])
+    summ = core.harness(["decode", "--out", trace, "--seed", seed, "--tier", tier, "--cases", tlc_cases])
     r = _validate(trace, v, "c01-trace")
     s = summ["summary"]
     samples = []
@@ -61,9 +93,10 @@ def run(tier, seed, t0):
         "evaluations": s["cases"],
         "distinct_nontrivial": s["ok_nonempty_distinct"],
         "rule": "enumerated: every string over the alphabet %s up to length %d after a header (as question name, raw RR, "
-                "and RDATA of PTR/SRV/NSEC/HINFO with RDLENGTH exact/-1/+1); generated: random bytes, mutated valid packets, "
+                "and RDATA of PTR/SRV/NSEC/HINFO with RDLENGTH exact/-1/+1); TLC-enumerated: %d datagrams from MCDecodePtr (every structure of compression "
+                "pointers among K two-byte slots) and MCDecodeRR (every type x RDLENGTH claim x RDATA string); generated: random bytes, mutated valid packets, "
                 "grammar-built hostile packets, datagrams of ~9000 bytes. non-trivial = decoded successfully with at least one "
-                "question or record, distinct by bytes" % (summ["alphabet"], summ["maxlen"]),
+                "question or record, distinct by bytes" % (summ["alphabet"], summ["maxlen"], n_tlc),
         "outcome_counts": s["counts"],
         "model_checking": [{k: x.get(k) for k in ("module", "cfg", "generated", "distinct", "depth", "ok", "wall_s")} for x in mcs],
         "drift_lines": len(r.get("drift", [])),
